@@ -62,6 +62,20 @@ class SEv:
         return self.name + d + s
 
 
+def _has_field(pl, f):
+    while isinstance(pl, tuple) and pl and pl[0] in ('pfield', 'pdown'):
+        if pl[0] == 'pfield' and pl[2] == f:
+            return True
+        pl = pl[1]
+    return False
+
+
+def _has_field_sibling(path):
+    """is this a path of one of the futures (their signal is the field `sig` next to `data`)?"""
+    k = path.body.key
+    return 'SendFuture' in k or 'ReceiveFuture' in k or k.startswith('future::')
+
+
 def guard_of_value(v):
     """guard token carried by value v (the token itself, or Some-payload thereof)"""
     if is_guard(v):
@@ -180,9 +194,26 @@ def project(path):
                 continue
             if n in SIG_FUNCS:
                 add(SIG_FUNCS[n], ev, args=a, res=ev.val)
+                if a and a[0][0] in ('ref', 'rawptr') and _has_field(a[0][1], 'sig') and _has_field_sibling(path):
+                    if SIG_FUNCS[n] == 'SIG.assume_init':
+                        add('FUT.read_local_data', ev, args=a, res=ev.val, derived=True, via='signal')
+                    elif SIG_FUNCS[n] == 'SIG.load_and_drop':
+                        add('FUT.drop_local_data', ev, args=a, res=ev.val, derived=True, via='signal')
                 continue
             if n in SLOT_FUNCS:
                 add(SLOT_FUNCS[n], ev, args=a, res=ev.val)
+                # the futures' local-data helpers written out / moved into free functions: the primitive on the future's own
+                # `data` field is the helper's effect
+                if a and a[0][0] in ('ref', 'rawptr') and _has_field(a[0][1], 'data'):
+                    if n.endswith('::assume_init_drop'):
+                        add('FUT.drop_local_data', ev, args=a, res=ev.val, derived=True, via='slot')
+                    elif n.endswith('::assume_init_read'):
+                        add('FUT.read_local_data', ev, args=a, res=ev.val, derived=True, via='slot')
+                continue
+            if n == 'std::ptr::read' and a and a[-1][0] == 'call' and a[-1][2] in (MU + 'as_ptr', MU + 'as_mut_ptr') and a[-1][3] \
+                    and a[-1][3][0][0] in ('ref', 'rawptr') and _has_field(a[-1][3][0][1], 'data'):
+                add('CALL', ev, callee=n, args=a, res=ev.val)
+                add('FUT.read_local_data', ev, args=a, res=ev.val, derived=True, via='slot')
                 continue
             if n in FUT_FUNCS:
                 add(FUT_FUNCS[n], ev, args=a, res=ev.val)
